@@ -227,6 +227,9 @@ DIMACS_TEXTS = ['p cnf 2 2\n1 -2 0\n2 0\n', 'p cnf 1 1\n3 0\n', '', 'garbage\n',
 NUM_POOL = ['-1', '0', '1', '2', '3', '5', '6', 'x', '1.5', '', '-', '007']
 T_NUM_POOL = ['-1', '0', '1', '2', '3', 'x']
 FILE_KINDS = ['missing', 'dir', 'empty', 'garbage', 'wrongformat', 'binary', 'unreadable']
+# good graph files whose names are legal but look like something else to code that pastes them into a template
+WEIRD_NAMES = ['net{v2}', 'net{}', 'g{0}{1}', 'a{b', 'p}q', '100%s', '%(n)d', '$HOME', 'a b', "it's", 'g;ls', 'x*', 'q?', '[1]', 'tab\tname', '~g', 'c:\\g', '#1', '{{x}}']
+GOOD_GRAPH = {'simple': "3\n1 : 0\n2 : 1 0\n3 : 1 2 0\n", 'dag': "3\n1 : 0\n2 : 1 0\n3 : 1 2 0\n", 'bipartite': "2 3\n1 1 0\n0 1 1\n"}
 
 
 def _is_num(t):
@@ -252,8 +255,22 @@ def strat_case(draw):
         chain = draw(argv_gen.tchain(max_len=2)) if tool == 'cnfgen' else []
         return {'tool': tool, 'args': out + ['dimacs'] + src + chain, 'stdin': stdin, 'rseed': draw(st.integers(0, 5))}
     if tool in ('cnfgen', 'pbgen'):
-        kind = draw(st.sampled_from(['graph', 'graph', 'numeric-random', 'numeric']))
-        if kind == 'graph':
+        kind = draw(st.sampled_from(['graph', 'graph', 'numeric-random', 'numeric', 'graph-file-name']))
+        if kind == 'graph-file-name':
+            # a graph command whose construction is replaced by a good file with an unusual name; the modifiers stay
+            cmd = draw(argv_gen.graph_command())
+            idx = [i for i, t in enumerate(cmd) if t in ('gnp', 'gnm', 'gnd', 'grid', 'torus', 'complete', 'empty', 'glrp', 'glrm', 'glrd', 'regular', 'shift', 'path', 'tree', 'pyramid')]
+            if idx:
+                i = idx[0]
+                j = i + 1
+                while j < len(cmd) and _is_num(cmd[j]):
+                    j += 1
+                gt = 'bipartite' if cmd[i] in ('glrp', 'glrm', 'glrd', 'regular', 'shift') else ('dag' if cmd[i] in ('path', 'tree', 'pyramid') else 'simple')
+                if cmd[0] in ('php', 'subsetcard', 'bphp') and gt == 'simple':
+                    gt = 'bipartite'
+                cmd[i:j] = draw(st.sampled_from([[], [], ['matrix' if gt == 'bipartite' else 'kthlist']])) + \
+                    ['@FILE:good-{}:{}'.format(gt, draw(st.integers(0, len(WEIRD_NAMES) - 1)))]
+        elif kind == 'graph':
             cmd = draw(argv_gen.graph_command())
         elif kind == 'numeric-random':
             cmd = draw(argv_gen.numeric_random_command())
@@ -265,7 +282,7 @@ def strat_case(draw):
             out = [] if ('dimacs' in out) else out
         seed = ['--seed', str(draw(st.integers(0, 99)))] if draw(st.booleans()) else []
         args = seed + out + cmd
-        nmut = draw(st.integers(0, 3))
+        nmut = draw(st.integers(0, 3)) if kind != 'graph-file-name' else draw(st.sampled_from([0, 0, 0, 1]))
         for _ in range(nmut):
             m = draw(st.sampled_from(['num', 'num', 'num', 'del', 'dup', 'bogus', 'file', 'save', 'swap', 'extra', 'helpsub', 'latepos']))
             if m == 'num':
@@ -288,6 +305,11 @@ def strat_case(draw):
                         j += 1
                     fk = draw(st.sampled_from(FILE_KINDS))
                     fmtk = draw(st.sampled_from([[], ['kthlist'], ['gml'], ['dot'], ['dimacs'], ['matrix']]))
+                    if draw(st.integers(0, 2)) == 0:
+                        # a good file of the right type under an unusual name (format by extension or named correctly)
+                        gt = 'bipartite' if args[i] in ('glrp', 'glrm', 'glrd', 'regular', 'shift') else ('dag' if args[i] in ('path', 'tree', 'pyramid') else 'simple')
+                        fk = 'good-{}:{}'.format(gt, draw(st.integers(0, len(WEIRD_NAMES) - 1)))
+                        fmtk = draw(st.sampled_from([[], [], ['matrix' if gt == 'bipartite' else 'kthlist']]))
                     args[i:j] = fmtk + ['@FILE:' + fk]
             elif m == 'save':
                 args += draw(st.sampled_from([['save'], ['save', '@DIR'], ['save', '@SAVE.kthlist'], ['save', 'gml', '@SAVE.x'],
@@ -337,6 +359,12 @@ def materialize(args, d):
             out.append(os.path.join(d, 'out' + a[4:]))
         elif a.startswith('@SAVE'):
             out.append(os.path.join(d, 'saved' + a[5:]))
+        elif a.startswith('@FILE:good-'):
+            gt, i = a[11:].split(':')
+            p = os.path.join(d, WEIRD_NAMES[int(i)] + ('.matrix' if gt == 'bipartite' else '.kthlist'))
+            with open(p, 'w') as f:
+                f.write(GOOD_GRAPH[gt])
+            out.append(p)
         elif a.startswith('@FILE:'):
             k = a[6:]
             p = os.path.join(d, 'in_' + k)
@@ -446,8 +474,14 @@ def run_case(case):
                     pass
         shutil.rmtree(d, ignore_errors=True)
     labels = [tool, verdict]
-    if any(a.startswith('@FILE') for a in case['args']):
+    if any(a.startswith('@FILE') and not a.startswith('@FILE:good-') for a in case['args']):
         labels.append('bad-file')
+    if any(a.startswith('@FILE:good-') for a in case['args']):
+        labels.append('good-file-unusual-name')
+        if verdict == 'success':
+            labels.append('good-file-unusual-name-used')
+            if any(a in ('plantclique', 'plantbiclique', 'addedges', 'splitedges') for a in case['args']):
+                labels.append('good-file-unusual-name-with-modifier')
     if any(a in ('@DIR',) for a in case['args']):
         labels.append('directory-argument')
     sub = [a for a in case['args'] if a.isalpha() and len(a) > 2]
@@ -626,8 +660,8 @@ TOOLS = ['cnfgen', 'pbgen', 'cnfshuffle', 'kthlist2pebbling']
 
 SUBCHECKS = [
     SubCheck('hostile', run_case, strategy=strat_case, quick=3000, thorough=150000,
-             rule="valid command lines of every sub-command (graph constructions, numeric forms, -T chains, every output option, -o into fresh files, into files that already hold a longer text, and into directories) with 0..3 mutations: numbers replaced by -1/0/1/2/3/5/6/x/1.5/empty, tokens deleted/duplicated, unknown options, graph constructions replaced by missing/directory/empty/garbage/wrong-format/binary/unreadable files with every format keyword, 'save' into bad places (a directory, a directory that does not exist, unknown extensions), constructions of the wrong graph type, extra tokens, -h anywhere; cnfshuffle and kthlist2pebbling with option soups and good/garbage stdin; oracle: exactly one of {exit 0 + complete document accepted by the strict reader of the format, help + exit 0, non-zero exit + empty stdout + non-empty stderr with every line starting with the comment marker}; never an escaping exception or traceback; non-trivial: the argv names a sub-command",
-             required_labels=TOOLS + ['success', 'clean-error', 'help', 'bad-file', 'directory-argument']),
+             rule="valid command lines of every sub-command (graph constructions, numeric forms, -T chains, every output option, -o into fresh files, into files that already hold a longer text, and into directories) with 0..3 mutations: numbers replaced by -1/0/1/2/3/5/6/x/1.5/empty, tokens deleted/duplicated, unknown options, graph constructions replaced by missing/directory/empty/garbage/wrong-format/binary/unreadable files with every format keyword, or by a good file of the right graph type whose name is legal but unusual (braces and format fields, percent signs, $, blanks, quotes, glob characters, a tab, a backslash - 19 names), 'save' into bad places (a directory, a directory that does not exist, unknown extensions), constructions of the wrong graph type, extra tokens, -h anywhere; cnfshuffle and kthlist2pebbling with option soups and good/garbage stdin; oracle: exactly one of {exit 0 + complete document accepted by the strict reader of the format, help + exit 0, non-zero exit + empty stdout + non-empty stderr with every line starting with the comment marker}; never an escaping exception or traceback; non-trivial: the argv names a sub-command",
+             required_labels=TOOLS + ['success', 'clean-error', 'help', 'bad-file', 'directory-argument', 'good-file-unusual-name-used', 'good-file-unusual-name-with-modifier']),
     SubCheck('subprocess', run_subprocess_case, strategy=strat_case, enumerate_cases=enum_subprocess, quick=32, thorough=2500,
              rule="the same generator, each command line run as a real process; enumerated: commands that read a formula or a graph from the standard input (every format keyword, and none) fed through a pipe with good and with malformed text (python -c 'from <tool module> import main; main()') and compared with the in-process verdict",
              required_labels=['subprocess']),
